@@ -880,7 +880,7 @@ class RemoteStreamFlowPath(
                     )
                     content, status = await self.connector.run(
                         location=self.location,
-                        command=command + ["-type", "f"],
+                        command=command + ["!", "-type", "d"],
                         capture_output=True,
                     )
                     _check_status(command, self.location, content, status)
@@ -902,7 +902,7 @@ class RemoteStreamFlowPath(
                     yield path, dirnames, filenames
                 else:
                     paths.append((path, dirnames, filenames))
-                paths += [path._make_child_relpath(d) for d in reversed(dirnames)]
+                paths += [path / d for d in reversed(dirnames)]
 
     def with_segments(self, *pathsegments: str | os.PathLike[str]) -> Self:
         return type(self)(*pathsegments, context=self.context, location=self.location)
